@@ -169,10 +169,16 @@ func newGrpcProxy(cfg *config.Config, tlscfg *tls.Config, statsHandler *proxy.Gr
 	//Init Glob Cache
 	globCache := route.NewGlobCache(cfg.GlobCacheSize)
 
+	authSchemes, err := auth.LoadAuthSchemes(cfg.Proxy.AuthSchemes)
+	if err != nil {
+		exit.Fatal("[FATAL] ", err)
+	}
+
 	proxyInterceptor := proxy.GrpcProxyInterceptor{
 		Config:       cfg,
 		StatsHandler: statsHandler,
 		GlobCache:    globCache,
+		AuthSchemes:  authSchemes,
 	}
 
 	handler := grpc_proxy.TransparentHandler(proxy.GetGRPCDirector(tlscfg, cfg))
